@@ -143,6 +143,16 @@ def tus(tier, seed):
     body += '}\n'
     res.append(dict(name='C10_storage', src=body, compiler='g++'))
     res += C10F.tus_float(tier, seed)
+    # comparisons between wide_integers of different widths (lines of the C03 table `wcmpt`, by-value oracle):
+    # the wider operand on either side, every limb width
+    whdr = _os.path.join(_os.path.dirname(_os.path.abspath(__file__)), 'C03w.h')
+    wp = [(200, 'i32', 300, 'i32'), (300, 'i32', 200, 'i32'), (200, 'u32', 300, 'u32'), (200, 'i64', 300, 'i64'), (300, 'i16', 200, 'i16'), (200, 'u8', 300, 'u8')]
+    for i in range(0, len(wp), 3):
+        body = '#include "%s"\nint main(){ install(); Rng rng(seed_from_env() + %d);\n' % (whdr, 1700 + i)
+        for (dl, nl, dr, nr) in wp[i:i + 3]:
+            body += '  wcmpt<%d, %s, %d, %s>(rng);\n' % (dl, CT[nl], dr, CT[nr])
+        body += '}\n'
+        res.append(dict(name='C10_wcmp_%d' % (i // 3), src=body, compiler='g++'))
     return res
 
 
